@@ -115,7 +115,7 @@ def near_degenerate_system(u=2.0, split=1.0e-8):
     return dict(n=n, na=2, nb=2, h0=0.1, h1=h1, chol=chol, ca=ca, cb=cb, info=info)
 
 
-def build(sysd, walker_type, n_walkers, dt=0.01, n_batch=1, trial_kind=None, n_opt_iter=30):
+def build(sysd, walker_type, n_walkers, dt=0.01, n_batch=1, trial_kind=None, n_opt_iter=30, mo_scale=1.0):
     """Library objects for a system: ham handler, ham_data (with both intermediates), prop, trial, wave_data."""
     L = lib()
     jnp = L["jnp"]
@@ -125,11 +125,12 @@ def build(sysd, walker_type, n_walkers, dt=0.01, n_batch=1, trial_kind=None, n_o
         trial_kind = "rhf" if walker_type == "restricted" else "uhf"
     if trial_kind == "rhf":
         trial = wf.rhf(n, (na, nb), n_opt_iter=n_opt_iter, n_batch=n_batch)
-        wd = {"mo_coeff": jnp.asarray(sysd["ca"][:, :na])}
+        # mo_scale != 1: an unnormalised trial (same state, overlaps scaled by mo_scale**(n_up+n_dn)); the supplied rdm1 stays
+        wd = {"mo_coeff": jnp.asarray(mo_scale * sysd["ca"][:, :na])}
         rdm = np.array([sysd["ca"][:, :na] @ sysd["ca"][:, :na].T] * 2)
     else:
         trial = wf.uhf(n, (na, nb), n_opt_iter=n_opt_iter, n_batch=n_batch)
-        wd = {"mo_coeff": [jnp.asarray(sysd["ca"][:, :na]), jnp.asarray(sysd["cb"][:, :nb])]}
+        wd = {"mo_coeff": [jnp.asarray(mo_scale * sysd["ca"][:, :na]), jnp.asarray(mo_scale * sysd["cb"][:, :nb])]}
         rdm = np.array([sysd["ca"][:, :na] @ sysd["ca"][:, :na].T, sysd["cb"][:, :nb] @ sysd["cb"][:, :nb].T])
     wd["rdm1"] = jnp.asarray(rdm)
     prop = (P.propagator_restricted if walker_type == "restricted" else P.propagator_unrestricted)(
